@@ -77,6 +77,10 @@ class Spec:
         return len(self.lines) + 1
 
     def pick(self, region=""):
+        if self.rng.chance(3):
+            # a line longer than any fixed line buffer of the generator's filters
+            n = self.rng.choice([4000, 4094, 4096, 5000, 8190, 8200, 13000])
+            return "longline", (b"long %d " % n + b"abcdefg " * (n // 8 + 1))[:n]
         while True:
             name, pl = self.rng.choice(PAYLOADS)
             if self.rng.chance(30):
